@@ -227,7 +227,16 @@ def rule_W3(ctx: Ctx) -> None:
 def rule_W4(ctx: Ctx) -> None:
     m = ctx.index.module(CO)
     where = (m.relpath, f"{CO}.VOCAB_TOKEN_TO_INDEX", m.assign_nodes["VOCAB_TOKEN_TO_INDEX"].lineno)
-    ok = X.same_expr(m.assigns["VOCAB_TOKEN_TO_INDEX"], "{token: i for i, token in enumerate(VOCAB_LIST)}")
+    # folded on a symbolic token list (E11): whatever the spelling, the map must send each token of VOCAB_LIST to its position
+    from sa.absobj import make_name_hook
+
+    try:
+        probe = ["<t0>", "<t1>", "<t2>", "<t3>"]
+        nh = make_name_hook(ctx.index, m, lambda: {})
+        got = Evaluator({"__name__": lambda n_, e_: probe if n_ == "VOCAB_LIST" else nh(n_, e_)}).ev(m.assigns["VOCAB_TOKEN_TO_INDEX"], {})
+        ok = got == {t_: i_ for i_, t_ in enumerate(probe)}
+    except Unknown:
+        ok = None
     ctx.judge(where, ok, {"VOCAB_TOKEN_TO_INDEX": X.U(m.assigns["VOCAB_TOKEN_TO_INDEX"])}, "token -> id is built by enumerating the very list that decode indexes",
               "encode and decode are not inverse to each other")
     enc = ctx.index.func(f"{MT}.MazeTokenizerModular.encode")
